@@ -6,6 +6,8 @@
 -/
 import OidcModel.Spec.C02
 import OidcModel.Generated.RPVerifier
+import OidcModel.Generated.KeySetC02
+import OidcModel.Generated.Jwks
 namespace C02
 open Go Gen Hand
 
@@ -121,6 +123,32 @@ theorem findMatchingKey_ok {kid use alg : String} {keys : List JWK} {k : JWK}
     · simp at h
     · simp at h
 
+/-- what a successful selection guarantees about the KEY ID: the token names exactly this key's id, or one of the two
+    has none and the key is the ONLY candidate that is left -/
+theorem findMatchingKey_sel {kid use alg : String} {keys : List JWK} {k : JWK}
+    (h : FindMatchingKey kid use alg keys = .ok k) :
+    (k.KeyID = kid ∧ kid ≠ "") ∨
+      ((k.KeyID = "" ∨ kid = "") ∧
+        (keys.filter fun k => (k.Use == use || k.Use == "") && algFits k.kty alg).filter (fun k => k.KeyID == "" || kid == "") = [k]) := by
+  rw [findMatchingKey_eq_spec] at h
+  unfold findSpec at h
+  simp only [] at h
+  split at h
+  · rename_i k' hf
+    have := List.find?_some hf
+    simp at h; subst h
+    simp at this
+    exact Or.inl this
+  · split at h
+    · rename_i k' hc
+      simp at h; subst h
+      have hm : k' ∈ List.filter (fun k => k.KeyID == "" || kid == "") (List.filter (fun k => (k.Use == use || k.Use == "") && algFits k.kty alg) keys) := by
+        rw [hc]; simp
+      simp at hm
+      exact Or.inr ⟨hm.2.1, hc⟩
+    · simp at h
+    · simp at h
+
 /-- ambiguity is reported, never resolved by guessing: without a key id and with two or more usable
     keys the selection fails with ErrKeyMultiple -/
 theorem findMatchingKey_ambiguous {use alg : String} {keys : List JWK}
@@ -136,6 +164,134 @@ theorem findMatchingKey_ambiguous {use alg : String} {keys : List JWK}
   | [] => simp [hl] at h
   | [_] => simp [hl] at h
   | _ :: _ :: _ => simp [hl]
+
+
+/-! ### bridge: the REGENERATED key selection (Generated/KeySetC02.lean, from pkg/oidc/keyset.go, pkg/op/op.go,
+    pkg/op/verifier_jwt_profile.go, pkg/client/rp/jwks.go) is the hand-written model the theorems below (and C13's) speak about.
+    An edit of `GetKeyIDAndAlg`, `algToKeyType`, `FindMatchingKey` or of a `VerifySignature` changes a `GenC02.*` definition
+    and one of these equations stops checking. -/
+
+theorem getKeyIDAndAlg_bridge (now : Int) (j : JWS) : GenC02.GetKeyIDAndAlg now j = Hand.GetKeyIDAndAlg j := by
+  unfold GenC02.GetKeyIDAndAlg Hand.GetKeyIDAndAlg
+  cases j.Signatures <;> rfl
+
+theorem algToKeyType_bridge (now : Int) (k : JWK) (alg : String) : GenC02.algToKeyType now k.Key alg = Hand.algToKeyType k alg := by
+  unfold GenC02.algToKeyType Hand.algToKeyType algFits JWK.Key c02AsRSA c02AsECDSA c02AsEd25519
+  rfl
+
+theorem fmk_tail (c : List JWK) :
+    (if (Go.len c == (1 : Int)) then (.ok (Go.index c (0 : Int)) : Go.R JWK)
+     else if decide (Go.len c > (1 : Int)) then .error "ErrKeyMultiple" else .error "ErrKeyNone") =
+    (match c with
+     | [k] => .ok k
+     | [] => .error "ErrKeyNone"
+     | _ => .error "ErrKeyMultiple") := by
+  match c with
+  | [] => rfl
+  | [k] => rfl
+  | a :: b :: t =>
+    have h1 : ¬ ((Go.len (a :: b :: t) == (1 : Int)) = true) := by
+      simp [Go.len, Go.HasLen.len]; omega
+    have h2 : decide (Go.len (a :: b :: t) > (1 : Int)) = true := by
+      simp [Go.len, Go.HasLen.len]; omega
+    rw [if_neg h1, if_pos h2]
+
+theorem fmk_loop (now : Int) (kid use alg : String) (keys cands : List JWK) :
+    GoX.loopCtl (β := Go.R JWK) keys cands (fun validKeys k =>
+      (if (((k).Use != use) && ((k).Use != "")) then (GoX.Ctl.next validKeys)
+       else (if (!(GenC02.algToKeyType now (k).Key alg)) then (GoX.Ctl.next validKeys)
+       else (if (((k).KeyID == kid) && (kid != "")) then (GoX.Ctl.ret (.ok k))
+       else (if (((k).KeyID == "") || (kid == "")) then
+              let validKeys := (Go.append validKeys k);
+              (GoX.Ctl.next validKeys)
+            else (GoX.Ctl.next validKeys)))))) =
+    (match keys.foldl (fmkStep kid use alg) (none, cands) with
+     | (some k, _) => .inl (.ok k)
+     | (none, c) => .inr c) := by
+  induction keys generalizing cands with
+  | nil => rfl
+  | cons x xs ih =>
+    simp only [GoX.loopCtl, List.foldl_cons, algToKeyType_bridge]
+    by_cases h1 : (x.Use != use && x.Use != "") = true
+    · have hs : fmkStep kid use alg (none, cands) x = (none, cands) := by simp only [fmkStep, h1, if_true]
+      rw [hs]; simp only [h1, if_true]; exact ih cands
+    · by_cases h2 : (!algToKeyType x alg) = true
+      · have hs : fmkStep kid use alg (none, cands) x = (none, cands) := by simp only [fmkStep, h1, h2, if_true, if_false, Bool.false_eq_true]
+        rw [hs]; simp only [h1, h2, if_true, if_false, Bool.false_eq_true]; exact ih cands
+      · by_cases h3 : (x.KeyID == kid && kid != "") = true
+        · have hs : fmkStep kid use alg (none, cands) x = (some x, cands) := by simp only [fmkStep, h1, h2, h3, if_true, if_false, Bool.false_eq_true]
+          rw [hs, fold_some]; simp only [h1, h2, h3, if_true, if_false, Bool.false_eq_true]
+        · by_cases h4 : (x.KeyID == "" || kid == "") = true
+          · have hs : fmkStep kid use alg (none, cands) x = (none, cands ++ [x]) := by simp only [fmkStep, h1, h2, h3, h4, if_true, if_false, Bool.false_eq_true]
+            rw [hs]; simp only [h1, h2, h3, h4, if_true, if_false, Bool.false_eq_true, Go.append]; exact ih (cands ++ [x])
+          · have hs : fmkStep kid use alg (none, cands) x = (none, cands) := by simp only [fmkStep, h1, h2, h3, h4, if_false, Bool.false_eq_true]
+            rw [hs]; simp only [h1, h2, h3, h4, if_false, Bool.false_eq_true]; exact ih cands
+
+theorem findMatchingKey_bridge (now : Int) (kid use alg : String) (keys : List JWK) :
+    GenC02.FindMatchingKey now kid use alg keys = Hand.FindMatchingKey kid use alg keys := by
+  unfold GenC02.FindMatchingKey Hand.FindMatchingKey
+  simp only []
+  rw [fmk_loop]
+  rcases hf : List.foldl (fmkStep kid use alg) (none, []) keys with ⟨o, c⟩
+  cases o with
+  | some k => rfl
+  | none =>
+    simp only []
+    rw [fmk_tail]
+    match c with
+    | [] => rfl
+    | [k] => rfl
+    | _ :: _ :: _ => rfl
+
+/-- `op.OpenIDKeySet.VerifySignature` (regenerated) on a storage that hands out `keys` is the published-key-set model
+    (error texts aside: `CheckSignature` maps every error of `VerifySignature` to ErrSignatureInvalid) -/
+theorem openIDKeySet_bridge (now : Int) (keys : List JWK) (j : JWS) :
+    (GenC02.OpenIDKeySetVerifySignature now { keySet := .ok keys } j).toOption =
+      (KeySet.VerifySignature { kind := .published, keys := keys } j).toOption := by
+  unfold GenC02.OpenIDKeySetVerifySignature KeySet.VerifySignature c02StorageKeySet c02JSONWebKeySet
+  simp only [getKeyIDAndAlg_bridge, findMatchingKey_bridge]
+  rcases GetKeyIDAndAlg j with ⟨kid, alg⟩
+  simp only []
+  cases FindMatchingKey kid Const.KeyUseSignature alg keys <;> rfl
+
+/-- a storage failure never yields a payload -/
+theorem openIDKeySet_storage_error (now : Int) (e : String) (j : JWS) :
+    (GenC02.OpenIDKeySetVerifySignature now { keySet := .error e } j).toOption = none := rfl
+
+/-- `op.jwtProfileKeySet.VerifySignature` (regenerated) over the reference registry is the jwt-profile key-set model -/
+theorem jwtProfileKeySet_bridge (now : Int) (storage : List (String × JWK)) (clientID : String) (j : JWS) :
+    (GenC02.JwtProfileKeySetVerifySignature now { storage := storage, clientID := clientID } j).toOption =
+      (KeySet.VerifySignature (Hand.jwtProfileKeySet storage clientID) j).toOption := by
+  unfold GenC02.JwtProfileKeySetVerifySignature KeySet.VerifySignature c02GetKeyByIDAndClientID Hand.jwtProfileKeySet
+  simp only [getKeyIDAndAlg_bridge]
+  rcases GetKeyIDAndAlg j with ⟨kid, alg⟩
+  simp only []
+  cases List.find? (fun k => k.KeyID == kid) (List.map (fun x => x.2) (List.filter (fun x => x.1 == clientID) storage)) <;> rfl
+
+/-- the sequential functions of `rp.remoteKeySet`, regenerated over the regenerated `GetKeyIDAndAlg` / `FindMatchingKey`,
+    are the ones the C13 transition system is instantiated with (which uses the hand-written twins) -/
+theorem remoteExactMatch_bridge : GenC02.remoteExactMatch = GenJwks.exactMatch := rfl
+
+theorem c02Pair_bridge (now : Int) : Hand.c02Pair (GenC02.FindMatchingKey now) = Hand.jwksFind := by
+  funext kid use alg keys
+  unfold Hand.c02Pair Hand.jwksFind
+  rw [findMatchingKey_bridge]
+  cases FindMatchingKey kid use alg keys <;> rfl
+
+theorem remoteVerifySignatureCached_bridge : GenC02.remoteVerifySignatureCached = GenJwks.verifySignatureCached := by
+  funext now r cached j kid alg
+  unfold GenC02.remoteVerifySignatureCached GenJwks.verifySignatureCached
+  rw [c02Pair_bridge, remoteExactMatch_bridge]
+
+theorem remoteVerifySignatureRemote_bridge : GenC02.remoteVerifySignatureRemote = GenJwks.verifySignatureRemote := by
+  funext now r rem j kid alg
+  unfold GenC02.remoteVerifySignatureRemote GenJwks.verifySignatureRemote
+  rw [c02Pair_bridge]
+
+theorem remoteVerifySignature_bridge : GenC02.remoteVerifySignature = GenJwks.VerifySignature := by
+  funext now r cached remote j
+  unfold GenC02.remoteVerifySignature GenJwks.VerifySignature
+  rw [getKeyIDAndAlg_bridge, remoteVerifySignatureCached_bridge]
 
 
 theorem jwsVerify_ok {j : JWS} {k : JWK} {p : Payload} (h : jwsVerify j k = .ok p) :
@@ -166,11 +322,15 @@ theorem verifySignature_sound {ks : KeySet} {j : JWS} {p : Payload} (h : ks.Veri
       obtain ⟨s, hs, hp, hg⟩ := jwsVerify_ok h
       have hsel := findMatchingKey_ok hf
       simp only [GetKeyIDAndAlg, hs] at hsel hf
+      have hkid := findMatchingKey_sel hf
       refine ⟨s, k, hs, hp, ?_, ?_⟩
-      · simp only [justifies, hk, publishedOK, Bool.and_eq_true, Bool.or_eq_true, beq_iff_eq, List.contains_eq_mem, decide_eq_true_eq]
+      · simp only [justifies, selectedOK, hk, publishedOK, kidConsistent, looseCandidates, usable, Bool.and_eq_true, Bool.or_eq_true,
+          beq_iff_eq, bne_iff_ne, ne_eq, List.contains_eq_mem, decide_eq_true_eq]
         refine ⟨⟨hsel.1, hg⟩, ?_, ?_⟩
         · simpa [Const.KeyUseSignature] using hsel.2.1
-        · rcases hsel.2.2.2 with h | h | h <;> simp [h]
+        · rcases hkid with ⟨h1, h2⟩ | ⟨h1, h2⟩
+          · exact Or.inl ⟨h1, h2⟩
+          · exact Or.inr ⟨h1, by simpa [Const.KeyUseSignature] using h2⟩
       · rintro ⟨_, hkid, hamb⟩
         rw [hkid] at hf
         have := findMatchingKey_ambiguous (use := Const.KeyUseSignature) (alg := s.Header.Algorithm) (keys := ks.keys)
@@ -187,7 +347,7 @@ theorem verifySignature_sound {ks : KeySet} {j : JWS} {p : Payload} (h : ks.Veri
       have hkid := List.find?_some hf
       simp only [GetKeyIDAndAlg, hs] at hkid
       refine ⟨s, k, hs, hp, ?_, by simp⟩
-      simp only [justifies, hk, Bool.and_eq_true, List.contains_eq_mem, decide_eq_true_eq]
+      simp only [justifies, selectedOK, hk, Bool.and_eq_true, List.contains_eq_mem, decide_eq_true_eq]
       exact ⟨⟨hm, hg⟩, hkid⟩
   | nilSet => simp [hk] at h
   | static =>
@@ -203,7 +363,7 @@ theorem verifySignature_sound {ks : KeySet} {j : JWS} {p : Payload} (h : ks.Veri
       | ok p' =>
         obtain ⟨s, hs, hp, hg⟩ := jwsVerify_ok hjv
         refine ⟨s, k, hs, h.symm, ?_, by simp⟩
-        simp only [justifies, hk, Bool.and_eq_true, List.contains_eq_mem, decide_eq_true_eq]
+        simp only [justifies, selectedOK, hk, Bool.and_eq_true, List.contains_eq_mem, decide_eq_true_eq]
         exact ⟨⟨hm, hg⟩, trivial⟩
 
 
@@ -248,15 +408,19 @@ theorem parse_and_signature_sound {now : Int} {t : Token} {p : Payload} {c c' : 
       have hallowed : (allowed algs).contains s.Header.Algorithm = true := by
         simp [hsig] at hall
         simpa [allowed, toJoseSignatureAlgorithms] using hall
+      have hmem : k ∈ ks.keys ∧ genuine j0 s k = true := by
+        simp only [justifies, Bool.and_eq_true, List.contains_eq_mem, decide_eq_true_eq] at hjust
+        exact hjust.1
       have hany : (ks.keys.any fun k => justifies ks j0 s k) = true := by
         simp only [List.any_eq_true]
-        refine ⟨k, ?_, hjust⟩
-        simp only [justifies, Bool.and_eq_true, List.contains_eq_mem, decide_eq_true_eq] at hjust
-        exact hjust.1.1
+        exact ⟨k, hmem.1, hjust⟩
+      have hgen : (ks.keys.any fun k => genuine j0 s k) = true := by
+        simp only [List.any_eq_true]
+        exact ⟨k, hmem.1, hmem.2⟩
       have hb : (p0.bytes != j0.payload.bytes) = false := by
         simp [Go.bytesEqual] at hbytes; simp [hbytes]
       have hallowed' : s.Header.Algorithm ∈ allowed algs := by simpa using hallowed
-      simp [hallowed', hany, hb, ← hs, Claims.SetSignatureAlgorithm]
+      simp [hallowed', hany, hgen, hb, ← hs, Claims.SetSignatureAlgorithm]
     · unfold ambiguous
       cases hk : ks.kind <;> simp only [hjws, hsig]
       simp only [Bool.and_eq_false_iff, decide_eq_false_iff_not]
@@ -265,6 +429,64 @@ theorem parse_and_signature_sound {now : Int} {t : Token} {p : Payload} {c c' : 
       · left; simpa using hkid
   · simp at hj
 
+
+/-- the key that `CheckSignature` believed -/
+theorem checkSignature_key {now : Int} {t : Token} {p : Payload} {c c' : Claims} {algs : List String} {ks : KeySet}
+    (hs : CheckSignature now t p c algs ks = .ok c') :
+    ∃ j s k, t.jws = some j ∧ j.Signatures = [s] ∧ justifies ks j s k = true := by
+  unfold CheckSignature at hs
+  simp only [] at hs
+  split at hs
+  · split at hs <;> simp at hs
+  rename_i j hj
+  unfold joseParseSigned at hj
+  split at hj; · simp at hj
+  rename_i j0 hjws
+  split at hj
+  · simp at hj; subst hj
+    split at hs; · simp at hs
+    split at hs; · simp at hs
+    split at hs; · simp at hs
+    rename_i sp hv
+    obtain ⟨s, k, hsig, _, hjust, _⟩ := verifySignature_sound hv
+    exact ⟨j0, s, k, hjws, hsig, hjust⟩
+  · simp at hj
+
+/-- **key-id consistency.**  `KeyConsistent ks t`: the token carries exactly one signature, it is a genuine signature by a key
+    `k` of the key set, and `k` was entitled to be selected — for a published set (remote JWKS, `op.OpenIDKeySet`): its declared
+    use permits signatures and EITHER the token's header (`Header`: protected and unprotected part as go-jose merges them) names
+    exactly `k`'s key id, OR one of the two has no key id and `k` is the only candidate left; for a per-client registry
+    (`jwtProfileKeySet`): the header names exactly `k`'s key id. -/
+def KeyConsistent (ks : KeySet) (t : Token) : Prop :=
+  ∃ j s k, t.jws = some j ∧ j.Signatures = [s] ∧ k ∈ ks.keys ∧ genuine j s k = true ∧
+    (ks.kind = .published →
+      (k.Use = "sig" ∨ k.Use = "") ∧
+      ((k.KeyID = s.Header.KeyID ∧ s.Header.KeyID ≠ "") ∨
+       ((k.KeyID = "" ∨ s.Header.KeyID = "") ∧ looseCandidates ks s = [k]))) ∧
+    (ks.kind = .jwtProfile → k.KeyID = s.Header.KeyID) ∧
+    ks.kind ≠ .nilSet
+
+theorem c02_kid_consistent {now : Int} {t : Token} {p : Payload} {c c' : Claims} {algs : List String} {ks : KeySet}
+    (hs : CheckSignature now t p c algs ks = .ok c') : KeyConsistent ks t := by
+  obtain ⟨j, s, k, hj, hsig, hjust⟩ := checkSignature_key hs
+  simp only [justifies, Bool.and_eq_true, List.contains_eq_mem, decide_eq_true_eq] at hjust
+  obtain ⟨⟨hm, hg⟩, hsel⟩ := hjust
+  refine ⟨j, s, k, hj, hsig, hm, hg, ?_, ?_, ?_⟩
+  · intro hk
+    simp only [selectedOK, hk, publishedOK, kidConsistent, Bool.and_eq_true, Bool.or_eq_true, beq_iff_eq, bne_iff_ne, ne_eq] at hsel
+    exact hsel
+  · intro hk
+    simpa [selectedOK, hk] using hsel
+  · intro hk
+    simp [selectedOK, hk] at hsel
+
+/-- with the header views fitting together as go-jose builds them, the key id the token names is the protected one, and the
+    unprotected one only where the protected header has none -/
+theorem named_kid_of_merged {s : JSig} (h : headerMerged s = true) :
+    s.Header.KeyID = (if s.Protected.KeyID != "" then s.Protected.KeyID else s.Unprotected.KeyID) ∧
+    s.Header.Algorithm = (if s.Protected.Algorithm != "" then s.Protected.Algorithm else s.Unprotected.Algorithm) := by
+  simp only [headerMerged, beq_iff_eq] at h
+  rw [h]; exact ⟨rfl, rfl⟩
 
 theorem rp_paths {now t v c} (h : VerifyIDToken now t v = .ok c) :
     ∃ p c0, ParseToken now t = .ok (p, c0) ∧ ∃ c1, CheckSignature now t p c0 v.SupportedSignAlgs v.KeySet = .ok c1 ∧ c1 = c := by
@@ -348,6 +570,61 @@ theorem c02_assertion (now : Int) (t : Token) (v : JWTProfileVerifier) :
   simp_all [payloadIssuer]
 
 
+/-- key-id consistency for the four verifiers (all tokens, key sets, allow-lists, serialisations) -/
+theorem c02_kid_consistent_rp {now : Int} {t : Token} {v : Verifier} {c : Claims}
+    (h : VerifyIDToken now t v = .ok c) : KeyConsistent v.KeySet t := by
+  obtain ⟨p, c0, _, c1, hs, _⟩ := rp_paths h
+  exact c02_kid_consistent hs
+
+theorem c02_kid_consistent_accessToken {now : Int} {t : Token} {v : Verifier} {c : Claims}
+    (h : OPVerifyAccessToken now t v = .ok c) : KeyConsistent v.KeySet t := by
+  obtain ⟨p, c0, _, c1, hs, _⟩ := opAccessToken_paths h
+  exact c02_kid_consistent hs
+
+theorem c02_kid_consistent_idTokenHint {now : Int} {t : Token} {v : Verifier} {o : HintOut}
+    (h : VerifyIDTokenHint now t v = .ok o) : KeyConsistent v.KeySet t := by
+  obtain ⟨p, c0, _, c1, hs, _⟩ := idTokenHint_paths h
+  exact c02_kid_consistent hs
+
+theorem c02_kid_consistent_assertion {now : Int} {t : Token} {v : JWTProfileVerifier} {c : Claims}
+    (h : VerifyJWTAssertion now t v = .ok c) : ∃ iss, payloadIssuer t = some iss ∧ KeyConsistent (assertionKeySet v iss) t := by
+  obtain ⟨iss, hi, _⟩ := c02_assertion now t v c h
+  obtain ⟨p, c0, hp, c1, hs, _⟩ := jwtAssertion_paths h
+  refine ⟨iss, hi, ?_⟩
+  have : c0.iss = iss := by
+    unfold ParseToken at hp
+    repeat' (split at hp <;> try (simp at hp))
+    simp_all [payloadIssuer]
+  rw [← this]
+  exact c02_kid_consistent hs
+
+/-- the published-key-set verifiers run the regenerated `OpenIDKeySet.VerifySignature`: what it accepts, the model accepts -/
+theorem openIDKeySet_sound {now : Int} {keys : List JWK} {j : JWS} {p : Payload}
+    (h : GenC02.OpenIDKeySetVerifySignature now { keySet := .ok keys } j = .ok p) :
+    ∃ s k, j.Signatures = [s] ∧ p = j.payload ∧ justifies { kind := .published, keys := keys } j s k = true := by
+  have hb := openIDKeySet_bridge now keys j
+  rw [h] at hb
+  cases hv : KeySet.VerifySignature { kind := .published, keys := keys } j with
+  | error e => simp [hv, Except.toOption] at hb
+  | ok p' =>
+    simp [hv, Except.toOption] at hb
+    subst hb
+    obtain ⟨s, k, hs, hp, hj, _⟩ := verifySignature_sound hv
+    exact ⟨s, k, hs, hp, hj⟩
+
+theorem jwtProfileKeySet_sound {now : Int} {storage : List (String × JWK)} {clientID : String} {j : JWS} {p : Payload}
+    (h : GenC02.JwtProfileKeySetVerifySignature now { storage := storage, clientID := clientID } j = .ok p) :
+    ∃ s k, j.Signatures = [s] ∧ p = j.payload ∧ justifies (Hand.jwtProfileKeySet storage clientID) j s k = true := by
+  have hb := jwtProfileKeySet_bridge now storage clientID j
+  rw [h] at hb
+  cases hv : KeySet.VerifySignature (Hand.jwtProfileKeySet storage clientID) j with
+  | error e => simp [hv, Except.toOption] at hb
+  | ok p' =>
+    simp [hv, Except.toOption] at hb
+    subst hb
+    obtain ⟨s, k, hs, hp, hj, _⟩ := verifySignature_sound hv
+    exact ⟨s, k, hs, hp, hj⟩
+
 /-! ### non-vacuity and why the payload comparison is needed -/
 section examples
 def exKeyA : JWK := { KeyID := "a", Use := "sig", kty := .rsa, keyNo := 1 }
@@ -377,6 +654,33 @@ example : (FindMatchingKey "e" "sig" "RS256" [exKeyEnc, exKeyA]).toOption = none
   rw [findMatchingKey_eq_spec]; decide
 example : FindMatchingKey "" "sig" "RS256" exKS.keys = .error "ErrKeyMultiple" :=
   findMatchingKey_ambiguous (by decide)
+
+/-! a flattened JSON JWS whose key id travels in the UNPROTECTED header (the protected one carries only `alg`) -/
+def exHP : JHeader := { Algorithm := "RS256", KeyID := "" }
+def exFlatS (kid : String) : JSig :=
+  { Header := { Algorithm := "RS256", KeyID := kid }, signer := some 1, signedAlg := "RS256", signedBytes := 1, signedHdr := exHP,
+    Protected := exHP, Unprotected := { Algorithm := "", KeyID := kid } }
+def exFlat (kid : String) : Token := { segs := 3, middle := some exP, jws := some { Signatures := [exFlatS kid], payload := exP } }
+def exKS1 : KeySet := { kind := .published, keys := [exKeyA] }
+def exV1 : Verifier := { Issuer := "https://op", ClientID := "rp", KeySet := exKS1 }
+example : headerMerged (exFlatS "a") = true ∧ headerMerged (exFlatS "zz") = true := by decide
+-- naming the key it was signed with: believed, and the key-id clause holds through the unprotected header
+example : (VerifyIDToken (2000000100 * Go.second) (exFlat "a") exV1).toOption = some (exC.SetSignatureAlgorithm "RS256") := by decide
+example : acceptedOK [] exKS1 (exFlat "a") (exC.SetSignatureAlgorithm "RS256") = none := by decide
+-- naming ANOTHER key ("zz") while signed with the set's only key: the signature itself verifies under that key ...
+example : (jwsVerify { Signatures := [exFlatS "zz"], payload := exP } exKeyA).toOption = some exP := by decide
+-- ... but the token is rejected, in all three verifiers over a published set (reading only the protected header would accept it)
+example : (VerifyIDToken (2000000100 * Go.second) (exFlat "zz") exV1).toOption = none := by decide
+example : (OPVerifyAccessToken (2000000100 * Go.second) (exFlat "zz") exV1).toOption = none := by decide
+example : (VerifyIDTokenHint (2000000100 * Go.second) (exFlat "zz") exV1).toOption.map HintOut.claims = none := by decide
+example : acceptedOK [] exKS1 (exFlat "zz") (exC.SetSignatureAlgorithm "RS256") = some "key-not-consistent-with-header" := by decide
+-- without any key id the only candidate is taken; with a second candidate it is not
+example : (VerifyIDToken (2000000100 * Go.second) (exFlat "") exV1).toOption = some (exC.SetSignatureAlgorithm "RS256") := by decide
+example : (VerifyIDToken (2000000100 * Go.second) (exFlat "") exVv).toOption = none := by decide
+-- the regenerated functions on the same inputs
+example : GenC02.GetKeyIDAndAlg 0 { Signatures := [exFlatS "zz"], payload := exP } = ("zz", "RS256") := by decide
+example : (GenC02.OpenIDKeySetVerifySignature 0 { keySet := .ok [exKeyA] } { Signatures := [exFlatS "zz"], payload := exP }).toOption = none := by decide
+example : (GenC02.OpenIDKeySetVerifySignature 0 { keySet := .ok [exKeyA] } { Signatures := [exFlatS "a"], payload := exP }).toOption = some exP := by decide
 end examples
 
 end C02
